@@ -9,6 +9,7 @@ import (
 	"math"
 	"math/rand"
 	"sort"
+	"strings"
 
 	dproto "github.com/cloudwego/dynamicgo/proto"
 	pgen "github.com/cloudwego/dynamicgo/proto/generic"
@@ -175,11 +176,9 @@ func (c *c10) run(pc PEditCase) {
 	c.out.Emit(map[string]interface{}{"ev": "PDoc", "schema": c.env.schema, "ref": ref, "b": B(doc), "expect": ex, "proto": c.env.text,
 		"case": PEditCase{Schema: &c.env.schema, B: pc.B, Ops: pc.Ops}})
 	// DOM: load + marshal must reproduce the message
-	for _, recurse := range []bool{true, false} {
-		api := "Load/lazy"
-		if recurse {
-			api = "Load/recurse"
-		}
+	for _, mode := range []string{"recurse", "lazy", "recurse/pooled", "lazy/pooled"} {
+		recurse := strings.HasPrefix(mode, "recurse")
+		api := "Load/" + mode
 		ev := map[string]interface{}{"ev": "PDom", "api": api, "st": "ok", "adump": pNone()}
 		func() {
 			defer func() {
@@ -188,7 +187,13 @@ func (c *c10) run(pc PEditCase) {
 				}
 			}()
 			root := pgen.NewRootValue(c.env.droot, append([]byte(nil), doc...))
-			tree := pgen.PathNode{Node: root.Node}
+			tree := &pgen.PathNode{Node: root.Node}
+			if strings.HasSuffix(mode, "pooled") {
+				// a tree from the pool: it held the previous document's tree (children slices keep their capacity and old content)
+				tree = pgen.NewPathNode()
+				tree.Node = root.Node
+				defer pgen.FreePathNode(tree)
+			}
 			if err := tree.Load(recurse, &pgen.Options{}, c.env.droot); err != nil {
 				ev["st"] = "load-err"
 				return
